@@ -4,6 +4,14 @@ import json, os
 V = os.path.dirname(os.path.dirname(os.path.abspath(__file__)))
 
 CLAIMS = {
+ "C13": dict(
+   text="Theorems over the Lean model of easing.rs (control points regenerated from the source on every run): every built-in easing maps 0→0 and 1→1 exactly (ℚ, for any control points; and bit-exactly in binary32 by decide +kernel over all 29), every non-Back curve stays in [0,1] and is monotone on [0,1] (Bernstein factorisation, table ordering by decide), Linear is the identity, each In/Out pair is the point mirror and each InOut its own mirror (table + functional identity), custom easings used as given, generated table = published CSS/easings.net control points. The timing-function clause is refuted by a kernel-checked witness for all 28 curves (known finding F-C13). Correspondence: all 29+4 custom easings bit-exact on random and dense sweeps; spec oracles against the published parametric value and the exact timing function.",
+   note="Trusted: Lean kernel; hand transcription of published control points and of lyon's y(t); differential tie sampled. F-C13 is recorded, not repaired (pinned tests fix the parametric numbers).",
+   technique="Lean 4 theorems (ring/positivity/decide over generated table) + decide +kernel Float32 + bit-exact correspondence and exact-arithmetic timing-function oracle", design="§7 C13"),
+ "C03": dict(
+   text="Theorems over the Lean model of time_scale.rs at ℚ for every (delay, cycle>0, repeat none/n/infinite, reverse) and every time: NotStarted iff t<delay, position in [0,1], linear rise / triangular fold in the first cycle, mirror symmetry, periodicity away from exact multiples, hold-at-end rule on multiples, terminal iff time since delay > cycle×(repeats+1) and never for infinite, terminal value, reported total duration and its agreement with behaviour, builder metadata as configured. Correspondence: get_position/get_duration bit-exact on boundary-directed times (±1 ulp at every phase boundary, huge times, u32 boundary repeat counts) and through the derive-generated timeline; sweeps of consecutive f32 bit patterns around phase boundaries compared by digest; relational oracles on implementation outputs.",
+   note="Trusted: Lean kernel; ℚ arithmetic in theorems (binary32 validated by the bit-exact run and sweeps); model hand-written, tie sampled.",
+   technique="Lean 4 theorems (case analysis + floor arithmetic over ℚ model) + bit-exact correspondence incl. f32 bit-pattern sweeps", design="§7 C03"),
  "C14": dict(
    text="Theorems over the Lean model of interpolation.rs/glam.rs at ℚ: lerp(a,b,0)=a, lerp(a,b,1)=b, lerp(a,a,x)=a, between-ness and monotonicity for every x in [0,1], integer lerp = real interpolation rounded to nearest (ties away) with no panic across each kind's full range (kinds and bounds regenerated from the source), vectors component-wise. The same model term run at Float32 is compared bit-for-bit with the crate on generated inputs (all kinds, f64, 19 glam types, out-of-range x for the panic path); thorough adds the exhaustive 8-bit pair sweep and kernel-evaluated (decide +kernel) binary32 endpoint tables for all u8/i8 pairs.",
    note="Trusted: Lean kernel; hand-written model tied by differential execution (sampled); ℚ arithmetic in the theorems — binary32 rounding is validated, not proved, except for the kernel-evaluated tables. Known finding F-C14: lerp(a,a,x) deviates from a by f32 rounding (≤2 ulp). Quat/DQuat not modelled.",
